@@ -83,7 +83,7 @@ class AbstractVector(StructuredRecord):
         if self.cutter.is_3overhang():
             return self._match.group(2) + self.overhang_end()
         else:
-            return self.overhang_start() + self._match.group(2)
+            return self.overhang_end() + self._match.group(2)
 
     def target_sequence(self):
         # type: () -> SeqRecord
